@@ -1,6 +1,7 @@
 import NucleoVerif.Model.Matcher
 import NucleoVerif.Spec.Matcher
 import NucleoVerif.Props.C02
+import NucleoVerif.Lemmas.DP
 /-! # C03 — the score is the fzf scheme applied to the reported alignment
 
 The specification (`Spec.alignScore`, `Spec.specBonus`, …) is written with the documented
@@ -296,4 +297,27 @@ example :
     ((calculateScore cfg ext .ascii [97, 120, 98] [97, 98] 0 3).2.getLast?.getD 0) + 1 = 3 ∧
     (calculateScore cfg ext .ascii [97, 120, 98] [97, 98] 0 3) = (16 + 2 * 10 - 3 + 16, [0, 2]) := by
   decide
+namespace NucleoVerif
+open Gen Spec
+
+/-! ## the optimal matcher's recurrence against the specification -/
+
+/-- **the optimal matcher's recurrence returns the scheme's value of the alignment it reports** — for every
+    configuration, haystack, needle and window, prefix preference off.  Proof: cell invariants `DP.CellInv`
+    / `DP.PInv` relate every M and P cell to the specification's state after that column, by induction over
+    columns and rows (`Lemmas/DP.lean`).  (The recurrence works on unbounded naturals here; that the `u16`
+    cells of the real matrix never saturate on the matrix path is part of the correspondence.) -/
+theorem C03_optimalDP_eq_alignScore (cfg : Cfg) (ext : Ext) (hrep : Rep) (h n : List Nat) (start end_ : Nat)
+    (hpp : cfg.preferPrefix = false) (sc : Nat) (path : List Nat)
+    (hres : optimalDP cfg ext hrep h n start end_ = some (sc, path)) :
+    sc = alignScore cfg ext h path :=
+  (DP.optimalDP_eq_alignScore cfg ext hrep h n start end_ hpp sc path hres).1
+
+/-- the hypotheses are satisfiable and the statement is not trivial: "ab" in "a/xb" — the recurrence reports the
+    alignment [0, 3] with the scheme's value 16 + 2·10 − 3 − 1 + 16 -/
+example :
+    let cfg : Cfg := { delims := [47], white := 10, delim := 9, initial := .whitespace, normalize := false, ignoreCase := false, preferPrefix := false }
+    optimalDP cfg (fun _ => default) .ascii [97, 47, 120, 98] [97, 98] 0 4 = some (16 + 2 * 10 - 3 - 1 + 16, [0, 3]) := by
+  decide
+
 end NucleoVerif
